@@ -20,20 +20,22 @@ import common
 
 MANIFEST = dict(
     category="proof",
-    text="proof (partial). Machine-checked forward-simulation proof (Coq) for a faithful model of "
-         "bytecode_interpreter.rs (compile_expression: slot resolution local/global/ans/function value, jump offsets of "
-         "conditionals, call frames with parameters and where-locals, recursion, function values and callable calls, "
-         "foreign calls, lists, struct field access) and of the vm.rs stack machine against an independent big-step "
-         "reference semantics: for every expression, fuel, scope and call-frame context, if the reference evaluation "
-         "yields a value the machine running the model-compiled code pushes exactly that value "
-         "(C09_expr_correct_partial), an expression statement halts with it (C09_statement_correct_partial) and the "
-         "machine never panics on such runs (C09_no_stuck_partial). The statement is refuted for function values taken "
-         "before a redefinition (C09_funref_refuted; open finding). NOT proved: string literals with parts and struct "
-         "literals (field order), the statement-level bookkeeping from `compile p` to the invariant the theorems "
-         "assume, runtime-error outcomes: these rest on the correspondence only. The model is tied to the code on "
-         "every run: the model compiler's output is compared instruction by instruction with the real compiler's "
-         "(hook dump), and model machine / reference evaluator / implementation results are compared three ways on "
-         "generated well-typed programs (the reference evaluator is the oracle).",
+    text="proof (partial). Machine-checked compiler-correctness proof (Coq) for a faithful model of "
+         "bytecode_interpreter.rs (compile_expression / compile_define_variable / compile_statement: slot resolution "
+         "local/global/ans/function value, jump offsets of conditionals, call frames with parameters and where-locals, "
+         "recursion, function values and callable calls, foreign calls, struct literals sorted by definition index "
+         "and emitted in reverse, field access, lists, string parts and JoinString, procedures) and of the vm.rs stack "
+         "machine against an independent big-step reference semantics. C09_compile_correct: for EVERY program of the "
+         "modelled language and every fuel, if compilation stays within the u16 ranges and the reference evaluation "
+         "(static binding; no stale function value is called) yields print output and a final value, the machine "
+         "running the compiled code halts with exactly that output and value. Named clauses: C09_field_order, "
+         "C09_list_order, C09_string_order, C09_arg_order, C09_innermost_binding; C09_no_stuck_partial (no panic / "
+         "error on such runs). The unrestricted statement is refuted for function values taken before a redefinition "
+         "(C09_funref_refuted; open finding). NOT proved: runtime-error outcomes (see design/vm.md), absence of panics "
+         "for all well-typed programs, u16 wrap-around. The model is tied to the code on every run: the model "
+         "compiler's output is compared instruction by instruction with the real compiler's (hook dump), and model "
+         "machine / reference evaluator / implementation results are compared three ways on generated well-typed "
+         "programs (the reference evaluator is the oracle).",
     design_ref="DESIGN.md §6 C09, design/vm.md",
     note="Trusted: Coq kernel + vm_compute; the hand ports Compile.v/Machine.v (validated every run by the opcode-level "
          "and result-level correspondence, not proved against Rust); quantity arithmetic, formatting and foreign "
@@ -42,7 +44,8 @@ MANIFEST = dict(
     technique="Coq forward-simulation proof (fuel induction, frame-generic invariant) + three-way model/implementation correspondence by vm_compute",
 )
 
-THEOREMS = ["C09_expr_correct_partial", "C09_statement_correct_partial", "C09_no_stuck_partial", "C09_funref_refuted"]
+THEOREMS = ["C09_compile_correct", "C09_no_stuck_partial", "C09_expr_simulation", "C09_list_order", "C09_arg_order",
+            "C09_string_order", "C09_field_order", "C09_innermost_binding", "C09_funref_refuted"]
 ALLOWED_AXIOMS = []
 FUEL_REF = 600
 FUEL_MACH = 20000
